@@ -60,6 +60,7 @@ def run(crate, harnesses, jobs=16, harness_timeout=900, total_timeout=3600, pref
         raise ToolFailure('cargo kani produced no result file for %s (exit %s):\n%s' % (crate, p.returncode, tail))
     with open(out_json) as f:
         d = json.load(f)
+    os.remove(out_json)
     stats = {c['harness_id']: c.get('cbmc_stats', {}) for c in d.get('cbmc', [])}
     errs = {e['harness_id']: e for e in d.get('error_details', [])}
     res = {}
